@@ -84,6 +84,16 @@ FnTable ==
   @@ "todo"  :> [made |-> "todo", kind |-> "todo"]
   @@ "env"   :> [made |-> "env", kind |-> "envdefault"] @@ "envInt" :> [made |-> "envInt", kind |-> "envintdefault"] )
 
+(* the built-in env / envInt: TLC cannot look into the argument text, the families use these argument lists *)
+EnvArgTable ==
+  (  "\"VERIF_UNSET\", \"dflt\"" :> [var |-> "VERIF_UNSET", hasdef |-> TRUE, def |-> "dflt"]
+  @@ "\"VERIF_UNSET\", 77"       :> [var |-> "VERIF_UNSET", hasdef |-> TRUE, def |-> "77"]
+  @@ "\"VERIF_E1\""              :> [var |-> "VERIF_E1", hasdef |-> FALSE, def |-> ""]
+  @@ "\"VERIF_E1\", \"dflt\""    :> [var |-> "VERIF_E1", hasdef |-> TRUE, def |-> "dflt"]
+  @@ "\"VERIF_E2\""              :> [var |-> "VERIF_E2", hasdef |-> FALSE, def |-> ""]
+  @@ "\"VERIF_E2\", 77"          :> [var |-> "VERIF_E2", hasdef |-> TRUE, def |-> "77"] )
+EnvDecimal == {"8080", "17", "77"}            \* the values of the families that strconv.Atoi accepts
+
 GoType(kind) == CASE kind = "int" -> "int" [] kind = "uint64" -> "uint64" [] kind = "float" -> "float64"
                   [] kind = "bool" -> "bool" [] OTHER -> "string"
 
@@ -91,7 +101,8 @@ GoType(kind) == CASE kind = "int" -> "int" [] kind = "uint64" -> "uint64" [] kin
 (* Container state *)
 EmptyEnv == [syms |-> Empty, vals |-> Empty, fns |-> Empty, globals |-> <<>>]
 NewStateEnv(cfg, env) == [cfg |-> cfg, shared |-> Empty, bags |-> Empty, bag |-> Empty, pcache |-> Empty,
-                          heap |-> Globals \o env.globals, cnt |-> Empty, env |-> env]
+                          heap |-> Globals \o env.globals, cnt |-> Empty, env |-> env,
+                          environ |-> Empty]          \* the process environment as far as the family's variables go (all unset)
 NewState(cfg) == NewStateEnv(cfg, EmptyEnv)
 (* what a reference text denotes: the family's own environment first, then the fixed tables *)
 SymOf(st, x) == IF Has(st.env.syms, x) THEN st.env.syms[x] ELSE SymTable[x]
@@ -129,8 +140,16 @@ EvalChunk(st, c) ==
          CASE f.kind = "str"  -> Ok(VStr(f.made \o "(" \o c.a \o ")"), st1)
            [] f.kind = "int"  -> Ok(VLit("int", "40"), st1)
            [] f.kind = "err"  -> IF c.a = "\"fail\"" THEN Err("fn:" \o c.v, st1) ELSE Ok(VStr(f.made \o "(" \o c.a \o ")"), st1)
-           [] f.kind = "envdefault"    -> Ok(VStr("dflt"), st)              \* family convention: %env("VERIF_UNSET", "dflt")%
-           [] f.kind = "envintdefault" -> Ok(VLit("int", "77"), st)         \*                    %envInt("VERIF_UNSET", 77)%
+           \* the environment is read when the chunk is evaluated, not before (docs/META.md)
+           [] f.kind = "envdefault"    ->
+                LET a == EnvArgTable[c.a] IN
+                IF Has(st.environ, a.var) THEN Ok(VStr(st.environ[a.var]), st)
+                ELSE IF a.hasdef THEN Ok(VStr(a.def), st) ELSE Err("env:" \o a.var, st)
+           [] f.kind = "envintdefault" ->
+                LET a == EnvArgTable[c.a] IN
+                IF Has(st.environ, a.var)
+                THEN (IF st.environ[a.var] \in EnvDecimal THEN Ok(VLit("int", st.environ[a.var]), st) ELSE Err("envint:" \o a.var, st))
+                ELSE IF a.hasdef THEN Ok(VLit("int", a.def), st) ELSE Err("env:" \o a.var, st)
            [] f.kind = "todo" -> Err(IF c.a = "" THEN "parameter todo" ELSE "todo:" \o c.a, st)
 
 EvalChunks(st, ch, i, acc) ==
@@ -286,6 +305,8 @@ OpGetTaggedByIn(c, t)  == [op |-> "GetTaggedByInContext", id |-> t, ctx |-> c]
 OpGetParam(p)          == [op |-> "GetParam", id |-> p, ctx |-> 0]
 OpOverrideParam(p, kind, v)  == [op |-> "OverrideParam", id |-> p, ctx |-> 0, kind |-> kind, v |-> v]
 OpOverrideService(s, ctor, args) == [op |-> "OverrideService", id |-> s, ctx |-> 0, ctor |-> ctor, args |-> args]
+OpSetEnv(var, val)     == [op |-> "SetEnv", id |-> var, ctx |-> 0, v |-> val]
+OpUnsetEnv(var)        == [op |-> "UnsetEnv", id |-> var, ctx |-> 0]
 OpIsTaggedBy(s, t)     == [op |-> "IsTaggedBy", id |-> s, ctx |-> 0, tag |-> t]
 OpCircularDeps         == [op |-> "CircularDeps", id |-> "", ctx |-> 0]
 
@@ -308,6 +329,9 @@ Apply(st, o) ==
     \* so the runtime's own cycle detector has nothing to report
     [] o.op = "IsTaggedBy"   -> Ok(VLit("bool", IF o.id \in SvcNames(st.cfg) /\ o.tag \in SvcTags(st.cfg.services[o.id]) THEN "true" ELSE "false"), st)
     [] o.op = "CircularDeps" -> Ok(VNil, st)
+    \* the program changes its environment between two uses of the container
+    [] o.op = "SetEnv"       -> Ok(VNil, [st EXCEPT !.environ = Upd(@, o.id, o.v)])
+    [] o.op = "UnsetEnv"     -> Ok(VNil, [st EXCEPT !.environ = Del(@, o.id)])
     [] o.op = "OverrideParam" ->
          Ok(VNil, [st EXCEPT !.cfg.params = Upd(@, o.id, IF o.kind = "string" THEN AStr(o.v) ELSE ALit(o.kind, o.v)),
                              !.pcache = Del(@, o.id)])
